@@ -286,6 +286,75 @@ fn insert_case(src: &mut Src, ctx: &mut Ctx) -> Result<(), String> {
     check_bytes(&bytes, false, ctx).map_err(|e| format!("{}: well-formed record of type {:#04x} (data type {}, payload {}) inserted before record #{} at byte {}: {}", base.name, rtype, dt, hex(payload, 24), at, off, e))
 }
 
+// ---- (ii-c) floods: one well-formed record repeated 100 000 times, read on a small stack ----------
+/// The thread the flooded stream is read on has the default stack of a spawned thread (2 MB): a reader
+/// that uses one stack frame per record dies here long before the checking process's 64 MB workers would.
+const FLOOD_COPIES: usize = 100_000;
+fn flood_positions(b: &Base) -> Vec<usize> {
+    // record boundaries after UNITS (library level), after the first STRNAME (structure level) and after
+    // the first element header (element level), where the base has them
+    let mut out = vec![];
+    let ty = |r: usize| b.bytes[b.offsets[r] + 2];
+    let n = b.offsets.len() - 1;
+    if let Some(r) = (0..n).find(|r| ty(*r) == 0x03) {
+        out.push(r + 1);
+    }
+    if let Some(r) = (0..n).find(|r| ty(*r) == 0x06) {
+        out.push(r + 1);
+    }
+    if let Some(r) = (0..n).find(|r| matches!(ty(*r), 0x08 | 0x09 | 0x0A | 0x0B | 0x0C | 0x15 | 0x2D)) {
+        out.push(r + 1);
+    }
+    out
+}
+fn flood_total() -> u64 {
+    let nv = insert_variants().len() as u64;
+    bases().iter().take(2).map(|b| flood_positions(b).len() as u64 * INSERT_TYPES * nv).sum()
+}
+fn flood_case(src: &mut Src, ctx: &mut Ctx) -> Result<(), String> {
+    let mut i = src.u64();
+    let vars = insert_variants();
+    let nv = vars.len() as u64;
+    let mut pick = None;
+    for b in bases().iter().take(2) {
+        let pos = flood_positions(b);
+        let n = pos.len() as u64 * INSERT_TYPES * nv;
+        if i < n {
+            pick = Some((b, pos[(i / (INSERT_TYPES * nv)) as usize], ((i / nv) % INSERT_TYPES) as u8, (i % nv) as usize));
+            break;
+        }
+        i -= n;
+    }
+    let (base, at, rtype, vi) = pick.ok_or("harness: flood index out of range")?;
+    let (dt, payload) = &vars[vi];
+    let mut rec = ((payload.len() + 4) as u16).to_be_bytes().to_vec();
+    rec.push(rtype);
+    rec.push(*dt);
+    rec.extend_from_slice(payload);
+    let off = base.offsets[at];
+    let mut bytes = Vec::with_capacity(base.bytes.len() + rec.len() * FLOOD_COPIES);
+    bytes.extend_from_slice(&base.bytes[..off]);
+    for _ in 0..FLOOD_COPIES {
+        bytes.extend_from_slice(&rec);
+    }
+    bytes.extend_from_slice(&base.bytes[off..]);
+    ctx.nontrivial(hash_of(&(base.name.as_str(), at, rtype, vi)));
+    ctx.label(&format!("flood of data type {}", dt));
+    if i % 97 == 0 {
+        ctx.sample("record flood", || format!("{}: {} copies of record type {:#04x} data type {} payload {} bytes before record #{}", base.name, FLOOD_COPIES, rtype, dt, payload.len(), at));
+    }
+    // read on a thread with the default (2 MB) stack; the verdict travels back through the join
+    let res = std::thread::Builder::new()
+        .spawn(move || {
+            let mut c = Ctx::new(false);
+            crate::engine::guard(|| check_bytes(&bytes, false, &mut c)).and_then(|r| r)
+        })
+        .map_err(|e| format!("harness: cannot spawn: {}", e))?
+        .join()
+        .map_err(|_| "reader thread panicked".to_string())?;
+    res.map_err(|e| format!("{}: {} copies of a well-formed record of type {:#04x} (data type {}, payload {}) before record #{}: {}", base.name, FLOOD_COPIES, rtype, dt, hex(payload, 24), at, e))
+}
+
 // ---- (iii) byte mutations and noise ---------------------------------------------------------------
 fn mutate(src: &mut Src) -> (Vec<u8>, String) {
     let nb = bases().len();
@@ -435,7 +504,7 @@ fn scaling_case(src: &mut Src, ctx: &mut Ctx) -> Result<(), String> {
 
 fn run(run: &mut Run) {
     engine::journal::set_hang_ms(30_000);
-    run.rule("Base streams: 30 generated valid streams (all element kinds, <= ~2 KB), one stream with a 32 KB XY record, 3 repository files. (i) every truncation point of every base; (ii) every single-record fault (6 length faults, empty payload, 64 record types, 8 data types, delete/duplicate/swap, 8 splices) at every record of the generated bases and every n-th record of the repository files; (ii-b) a well-formed record of each of the 64 record types x 11 payload shapes inserted at every record boundary of the generated bases; (iii) proptest-driven byte mutations and noise; extreme/unnormalised reals in UNITS; allocation scaling. Non-trivial = faulted stream differs from its base; distinct by hash of the bytes.");
+    run.rule("Base streams: 30 generated valid streams (all element kinds, <= ~2 KB), one stream with a 32 KB XY record, 3 repository files. (i) every truncation point of every base; (ii) every single-record fault (6 length faults, empty payload, 64 record types, 8 data types, delete/duplicate/swap, 8 splices) at every record of the generated bases and every n-th record of the repository files; (ii-b) a well-formed record of each of the 64 record types x 11 payload shapes inserted at every record boundary of the generated bases; (ii-c) floods: each of those records repeated 100 000 times at library, structure and element level of two bases, read on a 2 MB stack; (iii) proptest-driven byte mutations and noise; extreme/unnormalised reals in UNITS; allocation scaling. Non-trivial = faulted stream differs from its base; distinct by hash of the bytes.");
     run.assume("termination is observed as: the call returns before the supervisor's hang watchdog / 60 s CPU limit; 'time proportional to input' is approximated by allocation volume at most doubling when the input doubles");
     run.assume("which error is returned is not asserted");
     run.min_nontrivial = 1000;
@@ -444,6 +513,7 @@ fn run(run: &mut Run) {
     let f = fault_case_with(st);
     run.enumerate("record-faults", *fault_table(st).last().unwrap(), &f);
     run.enumerate("record-insertions", *insert_table().last().unwrap(), &insert_case);
+    run.enumerate("record-floods", flood_total(), &flood_case);
     let np = real_patterns().len() as u64;
     run.enumerate("reals", np * np, &reals_case);
     run.explore("mutations", run.tier.pick(400_000, 4_000_000), 64, &noise_case);
@@ -458,6 +528,7 @@ fn case(sub: &str) -> Option<Box<CaseFn<'static>>> {
             Some(Box::new(fault_case_with(st)))
         }
         "record-insertions" => Some(Box::new(insert_case)),
+        "record-floods" => Some(Box::new(flood_case)),
         "reals" => Some(Box::new(reals_case)),
         "mutations" => Some(Box::new(noise_case)),
         "alloc-scaling" => Some(Box::new(scaling_case)),
